@@ -106,5 +106,5 @@ MANIFEST = {
             "is refuted by a concrete history (F1) that is safe now.",
     "note": "Hypotheses of the theorem: sources follow Temporal's sender contract (wf_act), a target connects once and no stream fails (failures are C04, where the statement is refuted). Trusted: "
             "Coq kernel, extraction, the synctest harness and its fake streams, generator disciplines. Modelled not verified: gRPC/Go runtime semantics, single proxy instance (no memberlist); the ring "
-            "buffer is abstract here and refined in C05.",
+            "buffer is abstract here and refined in C05. Implementation-only obligation: honest lagging targets (the acknowledgement is the greatest watermark the target was sent, keep-alives included, and arrives after further tasks were forwarded).",
 }
